@@ -213,3 +213,9 @@ def campaign(col, tier, seed, shard, nshards):
         col.exhaustive["repr_over_all_attribute_sets"] = True
     n = 8000 if tier == "quick" else 640000
     hyp_campaign(col, strategy(), run_case, max(n // nshards, 100), seed * 100 + shard)
+    if tier == "thorough":
+        import sys as _sys
+
+        from ..common import fuzz_stage
+
+        fuzz_stage(col, _sys.modules[__name__], 60000 // nshards, seed * 100 + shard)
